@@ -514,7 +514,11 @@ def run(rep, work, tier, seed, props, replay=None):
         info = run_impl_parallel("ops_impl.py", [{"list": True}])[0]
         idx = list(range(info["n"])) if replay is None else [replay["catalog_index"]]
         seeds = [seed, seed + 1, seed + 2] if tier == "thorough" else [seed]
-        tasks = [{"index": i, "mode": "vjp", "seed": sd} for sd in seeds for i in idx]
+        # operand memory layouts: 0 = C-contiguous, 1 = Fortran-ordered, 2 = negative strides, 3 = strided view of a wider buffer
+        layouts = [0, 1, 2, 3] if tier == "thorough" else [0, 1 + seed % 3]
+        if replay is not None:
+            layouts, seeds = [replay.get("layout", 0)], [replay.get("seed", seed)]
+        tasks = [{"index": i, "mode": "vjp", "seed": sd, "layout": lay} for sd in seeds for lay in layouts for i in idx]
         parts = [tasks[i::16] for i in range(16)]
         flat = [t for p in parts for t in p]
         cres = []
@@ -522,7 +526,7 @@ def run(rep, work, tier, seed, props, replay=None):
             cres.extend(rr["results"])
         for t, r in zip(flat, cres):
             if "harness_error" in r:
-                cat_bad.append({"kind": "operation catalogue: %s raised: %s" % (r["label"], r["harness_error"].strip().split("\n")[-1][:200]), "catalog_index": t["index"], "seed": t["seed"]})
+                cat_bad.append({"kind": "operation catalogue: %s raised: %s" % (r["label"], r["harness_error"].strip().split("\n")[-1][:200]), "catalog_index": t["index"], "seed": t["seed"], "layout": t["layout"]})
                 continue
             cat_n += 1
             cat_fam[r["family"]] = cat_fam.get(r["family"], 0) + 1
@@ -534,7 +538,7 @@ def run(rep, work, tier, seed, props, replay=None):
                 worst = max(worst, e["rel_err"]) if e["rel_err"] < 1e-4 else worst
                 if not e["rel_err"] <= 2e-6:
                     cat_bad.append({"kind": "operation catalogue: %s -- backward gives %r for operand %d at %s, the derivative of the forward pass is %r" % (
-                        r["label"], e["analytic"], e["operand"], e["at"], e["numeric"]), "catalog_index": t["index"], "seed": t["seed"], "label": r["label"], "detail": e})
+                        r["label"], e["analytic"], e["operand"], e["at"], e["numeric"]), "catalog_index": t["index"], "seed": t["seed"], "layout": t["layout"], "label": r["label"], "detail": e})
     # ---- report
     kf = {f["name"]: f for f in known_findings("C02") if f["status"] == "known"}
     for item in (bad1 + bad_fs + bad2 + bad2b)[:8]:
